@@ -65,6 +65,25 @@ def oracle(ctx, budget=1, replay=None, hints=None):
         for f in O.check_C02(w, steps)[:1]:
             r['failures'].append(f)
     r['evaluations'] += 1
+    # through the plugin object, as OctoPrint drives it: a file that switches exclusion off at its start (default action table and tables
+    # with several entries per command) and then crosses the region is forwarded verbatim
+    import pluginstream as PS, pluginoracles as PO, implplugin as IP
+    reg = dict(type='RectangularRegion', id='a1', x1=10.0, y1=10.0, x2=20.0, y2=20.0)
+    for _ in range(12 * budget):
+        st = PS.rnd_settings(ctx.rng)
+        st['atc'] = ctx.rng.choice([PS.DEFAULT_ATC, PS.DEFAULT_ATC + [('Purge', None, 'disable_exclusion')], [PS.DEFAULT_ATC[1], PS.DEFAULT_ATC[0]],
+                                   [('ExcludeRegion', '^\\s*(disable|off)', 'disable_exclusion'), ('ExcludeRegion', '^\\s*(enable|on)', 'enable_exclusion'), ('Other', None, 'enable_exclusion')]])
+        off = ctx.rng.choice(['@ExcludeRegion off', '@ExcludeRegion disable'])
+        evs = [('api', 'addExcludeRegion', reg, False), ('event', 'PRINT_STARTED'), ('cmd', 'G28'), ('at', off, False), ('cmd', 'G1 X5 Y5 Z0.3 E1 F3000'),
+               ('cmd', 'G1 X15 Y15 E2'), ('cmd', 'G1 E1'), ('cmd', 'G1 X16 Y12'), ('cmd', 'G1 E2'), ('cmd', 'G2 X12 Y16 I-2 J2 E3'), ('cmd', 'M204 S500'), ('cmd', 'G1 X30 Y30 E4')]
+        pl = IP.new_plugin(**PS.Run.settings_dict(st))
+        r['evaluations'] += 1
+        for k, ev in enumerate(evs):
+            res, _msgs = PO.drive(pl, ev, st)
+            if ev[0] == 'cmd' and res is not None and list(res) != [ev[1]]:
+                r['failures'].append(dict(what='after %r (exclusion switched off by the file) the plugin answered %r with %r instead of leaving it alone' % (off, ev[1], res),
+                                          signature='C02:plugin-disabled', step=k, case=dict(settings=dict((kk, str(v)) for kk, v in st.items()), events=[list(map(str, e)) for e in evs[:k + 1]])))
+                break
     return r
 
 
